@@ -247,10 +247,10 @@ OpAct(bd) == [a |-> "op", op |-> bd.op, f |-> bd.f, ok |-> bd.ok, wlen |-> bd.wl
 (*   tn, tc  : names / clocks changed by inputs AFTER the faulting input                                *)
 (*   cands   : in-memory states observed since the last moment all data was with the OS                 *)
 
-C10Clauses == {"C10_rejoin_set", "C10_clock", "C10_event_clock", "C10_query_clock"}
-C11Clauses == {"C11_crash_safe", "C11_snapshot_missing"}
+C10Clauses == {"C10_rejoin_set", "C10_clock", "C10_event_clock", "C10_query_clock", "C10_torn_tail"}
+C11Clauses == {"C11_crash_safe", "C11_snapshot_missing", "C11_torn_tail"}
 C12Clauses == {"C12_no_panic", "C12_forwarded", "C12_later_recorded"}
-C13Clauses == {"C13_no_rejoin", "C13_set_at_leave"}
+C13Clauses == {"C13_no_rejoin", "C13_set_at_leave", "C13_torn_tail"}
 
 V(c, t) == [c |-> c, t |-> t \cup cfg.tags]
 MonInit == [viol |-> {}, exp |-> ZeroSt, eclk |-> 0, left |-> FALSE, atLeave |-> NoAlive, clean |-> FALSE,
@@ -305,6 +305,7 @@ RestartClauses(m, st) ==
              \/ "e" \in m.tc /\ st.ec # m.exp.ec
              \/ "q" \in m.tc /\ st.qc # m.exp.qc
           THEN {V("C12_later_recorded", {})} ELSE {})
+  ELSE IF "serf_level" \in cfg.tags THEN {}       \* Serf-level history: Serf's own clocks are not inputs of the trace
   ELSE (IF st.alive # m.exp.alive \/ st.x # 0 THEN {V("C10_rejoin_set", {})} ELSE {})
        \cup (IF st.lc # m.exp.lc THEN {V("C10_clock", {})} ELSE {})
        \cup (IF st.ec # m.exp.ec THEN {V("C10_event_clock", {})} ELSE {})
@@ -334,6 +335,12 @@ MonStep(m, act, o) ==
     \* shutdown drain loop sees is a race; after a leave none may be recorded whoever sees them, so the restart is judged
     \* as usual; before a leave the expected state would be ambiguous and the session is not judged
     [] act.a = "burst"    -> IF m.left THEN m ELSE [m EXCEPT !.had = FALSE]
+    \* torn-tail crash class: the snapshot image cut at every byte offset inside its last line, each cut replayed by the
+    \* real NewSnapshotter (o.recs = the distinct results); o.base = what the image cut at the START of that line replays
+    \* to.  A fragment without its newline is not a recorded line: every cut must recover exactly base.
+    [] act.a = "torn"     -> IF \A i \in DOMAIN o.recs : o.recs[i] = o.base THEN m
+                             ELSE [m EXCEPT !.viol = @ \cup {V("C10_torn_tail", {}), V("C11_torn_tail", {})}
+                                                      \cup (IF m.left THEN {V("C13_torn_tail", {})} ELSE {})]
     [] OTHER              -> m          \* tick, adv, start, crash: nothing to judge at the input itself
 
 ------------------------------------------------------------------------------
